@@ -108,6 +108,24 @@ pub fn spec(property: &str, tier: &str) -> Option<CheckSpec> {
 			vec!["real blocks stay within one 1024-bit chunk; several chunks are covered by txhsim with synthetic outputs"],
 			vec!["reorg"],
 		)),
+		"C08" => {
+			let mut sp = s(
+				"storesim+chainsim",
+				"exploration",
+				if quick { 16 } else { 64 },
+				"store level: run = one generated history of units of work (optional boundary-by-boundary rewind with the per-unit spent bitmap, appends, removals by pattern: random, siblings, whole subtree, whole peak, alternating, everything before a boundary, leaves re-added by the rewind; then sync or discard) interleaved with check_compact at any earlier boundary and with drop+reopen, for fixed-size and variable-size elements; after every step root, size, data and hash of every unspent leaf, leaf_pos_iter, n_unpruned_leaves and Merkle proofs are compared with an unpruned in-memory reference MMR written independently; distinct = distinct step logs; non-trivial = the history contains both a compaction and a rewind. chain level (coverage.chain_*): chains long enough for Chain::compact to act, compact() at random points, state digest/unspent view/validate(false) unchanged and a fork inside the horizon still reorganises",
+				vec![
+					"workload obeys the store usage protocol of TxHashSet::compact / Extension::rewind (rewind only to block boundaries above the last compaction cutoff, rewind_rm_pos = positions spent by the rewound units, one removal per leaf)",
+				],
+				vec!["compact", "rewind", "reopen", "discard", "compaction_removed_data", "leaves_readded_by_rewind", "compaction_moved_tail"],
+			);
+			sp.real_components = vec![
+				"grin_store::pmmr::PMMRBackend, PruneList, LeafSet, AppendOnlyFile/DataFile on tmpfs files".into(),
+				"grin_core PMMR (push, prune, rewind, root, merkle_proof) and MerkleProof::verify".into(),
+			];
+			sp.stub_components = vec!["TxHashSet/Extension (their call protocol is reproduced by the workload generator)".into()];
+			Some(sp)
+		}
 		_ => None,
 	}
 }
@@ -152,6 +170,16 @@ fn world_cfg_for(property: &str, rng: &mut SimRng, quick: bool) -> WorldCfg {
 			cfg.max_txs = 3;
 			cfg.trunk = cfg.trunk.max(12);
 		}
+		"C08" => {
+			// long enough for Chain::compact to act (head >= tail + horizon 20 + 60)
+			cfg.trunk = rng.range(84, 94);
+			cfg.tx_pct = 25;
+			cfg.max_txs = 2;
+			cfg.nrd = false;
+			cfg.branches = rng.range(1, 2) as usize;
+			cfg.max_branch_depth = rng.range(1, 5);
+			cfg.fork_near_tip = 8;
+		}
 		_ => {}
 	}
 	cfg
@@ -186,6 +214,11 @@ fn oracles_for(property: &str) -> Oracles {
 		"C15" => {
 			o.bitmap = true;
 			o.reject_bad = true;
+		}
+		"C08" => {
+			o.stable_ops = true;
+			o.utxo = true;
+			o.head = true;
 		}
 		_ => {}
 	}
@@ -242,6 +275,8 @@ pub fn build_world(property: &str, tier: &str, seed: u64) -> Result<World, Strin
 
 fn schedules_per_world(property: &str, quick: bool) -> u64 {
 	match (property, quick) {
+		("C08", true) => 3,
+		("C08", false) => 10,
 		(_, true) => 6,
 		(_, false) => 20,
 	}
@@ -309,6 +344,15 @@ pub fn chainsim_case(property: &str, tier: &str, seed: u64, case: u64) -> CaseRe
 		}
 		if uses_twin(property) {
 			scfg.n_nodes = 1;
+		}
+		if property == "C08" {
+			scfg.n_nodes = 1;
+			scfg.headers_first = true;
+			scfg.shuffle_window = *rr.pick(&[1usize, 3, 6]);
+			scfg.compact_pct = *rr.pick(&[3u64, 6, 10]);
+			scfg.restart_pct = *rr.pick(&[0u64, 3, 6]);
+			scfg.validate_pct = 1;
+			scfg.dup_pct = *rr.pick(&[0u64, 5]);
 		}
 		let twin = uses_twin(property);
 		let (ops, reorders) = chainsim::gen_schedule(&world, &scfg, &mut rr);
@@ -577,6 +621,17 @@ pub fn replay_chainsim(rp: &Value) -> Result<Option<Violation>, String> {
 pub fn run_case(property: &str, tier: &str, seed: u64, case: u64) -> CaseResult {
 	match property {
 		p if CHAINSIM_PROPS.contains(&p) => chainsim_case(property, tier, seed, case),
+		"C08" => {
+			if case % 4 == 3 {
+				let mut r = chainsim_case(property, tier, seed, case);
+				// report chain-level counters under their own names
+				let runs = r.runs;
+				r.extra.insert("chain_level_runs".into(), json!(runs));
+				r
+			} else {
+				crate::storesim::case(tier, seed, case)
+			}
+		}
 		_ => {
 			let mut r = CaseResult::new(case, seed);
 			r.harness_error = Some(format!("no engine for property {}", property));
